@@ -412,8 +412,13 @@ func transTypeLfd(transTV func(TypeVar) FType, lfd LetFuncDef) LetFuncDef {
 	return LetFuncDef{Fvar: nfvar, Params: nparams, Body: nbody}
 }
 
-func resolveOneTypeVar(rsv Resolver, tv TypeVar) FType {
-	recurse := (func(_r0 TypeVar) FType { return resolveOneTypeVar(rsv, _r0) })
+func resolveOneTypeVarP(path []string, rsv Resolver, tv TypeVar) FType {
+	frt.IfOnly(slice.Forany(func(n string) bool {
+		return frt.OpEqual(n, tv.Name)
+	}, path), (func() {
+		PanicNow("Recursive type is not supported.")
+	}))
+	recurse := (func(_r0 TypeVar) FType { return resolveOneTypeVarP(slice.PushHead(tv.Name, path), rsv, _r0) })
 	ei := rsLookupEI(rsv, tv.Name)
 	rcand := ei.resType
 	switch _v15 := (rcand).(type) {
@@ -427,6 +432,10 @@ func resolveOneTypeVar(rsv Resolver, tv TypeVar) FType {
 	default:
 		return transTVFType(recurse, rcand)
 	}
+}
+
+func resolveOneTypeVar(rsv Resolver, tv TypeVar) FType {
+	return resolveOneTypeVarP(slice.New[string](), rsv, tv)
 }
 
 func resolveType(rsv Resolver, ftp FType) FType {
